@@ -853,7 +853,12 @@ fn case_for_index(i: u64, base_seed: u64, fx: &Fixtures, sweep: &[Case]) -> Case
 
 fn minimise(c0: &Case, sig: &str) -> (Case, Value) {
     let probes = std::cell::Cell::new(0u64);
+    // best effort within a time budget (a probe on a megabyte document costs milliseconds)
+    let deadline = std::time::Instant::now() + std::time::Duration::from_secs(20);
     let fails = |c: &Case| {
+        if std::time::Instant::now() > deadline {
+            return false;
+        }
         probes.set(probes.get() + 1);
         execute(c).verdict.map(|v| v.0 == sig).unwrap_or(false)
     };
